@@ -104,7 +104,7 @@ def scn_throttle(ctx):
 
     def canceller():
         sched.point()
-        sp = subs[-1]
+        sp = subs[ctx.choice(nsub, "cancel-which")] if p.get("cancel_any") else subs[-1]
         f = sp.get("f")
         if f is not None:
             r = f.cancel()
@@ -283,6 +283,7 @@ def plan(tier, seed):
         items.append(dict(scenario=T, params=dict(nsub=3, submitters=1, count="static", block=False, dur="long"), bounds=dict(P=0)))
         items.append(dict(scenario=T, params=dict(nsub=2, submitters=1, count="dynamic", block=False, dyn_calls=3), bounds=dict(P=0)))
         items.append(dict(scenario=T, params=dict(nsub=3, submitters=1, count="static", block=False, cancel=True, cmax=2), bounds=dict(P=0)))
+        items.append(dict(scenario=T, params=dict(nsub=4, submitters=1, count="static", block=False, cancel=True, cancel_any=True, cmax=1, dur="long"), bounds=dict(P=0)))
     else:
         items.append(dict(scenario=T, params=dict(nsub=3, submitters=1, count="static", block=False), bounds=dict(P=1)))
         items.append(dict(scenario=T, params=dict(nsub=4, submitters=2, count="static", block=False), bounds=dict(P=0)))
